@@ -80,7 +80,7 @@ def run(module, cfg, outdir, workers=8, simulate=None, depth=None, seed=None, en
     _counter[0] += 1
     meta = os.path.join(outdir, "meta_%d_%d" % (os.getpid(), _counter[0]))
     cfg_path = cfg if os.path.isabs(cfg) else os.path.join(SPEC_DIR, cfg)
-    java = ["java", "-XX:+UseParallelGC"]
+    java = ["java", "-XX:+UseSerialGC", "-Xms512m"]
     if heap:
         java.append("-Xmx%s" % heap)
     if deque:
